@@ -60,6 +60,20 @@ def surface(chk, repo, d, eq):
                 if nm_.endswith('zgesv'):
                     captured['args'] = args
                     return None
+                if nm_.endswith('zgetrf'):
+                    captured['factorised'] = args[2]          # zgetrf(M, N, A, LDA, IPIV, INFO): the first half of what zgesv does
+                    captured.setdefault('other', []).append('zgetrf')
+                    return None
+                if nm_.endswith('zgetrs') and len(args) >= 9:
+                    # zgetrs(TRANS, N, NRHS, A, LDA, IPIV, B, LDB, INFO) on the matrix zgetrf factorised, not transposed: together they are zgesv(N, NRHS, A, LDA, IPIV, B, LDB, INFO)
+                    captured.setdefault('other', []).append('zgetrs')
+                    fa_ = captured.get('factorised')
+                    tr_ = args[0]
+                    try: tv_ = tr_.get(0) if isinstance(tr_, Arr) else (tr_.frame.vars[tr_.name] if isinstance(tr_, Ref) else tr_)
+                    except Exception: tv_ = None
+                    if isinstance(fa_, Arr) and isinstance(args[3], Arr) and fa_.base is args[3].base and tv_ in (b'N', 'N', 78):
+                        captured['args'] = (args[1], args[2], args[3], args[4], args[5], args[6], args[7], args[8])
+                    return None
                 if 'cython_lapack' in nm_:
                     captured.setdefault('other', []).append(nm_.split('.')[-1])
                     return None
@@ -74,7 +88,7 @@ def surface(chk, repo, d, eq):
             where = mb.where(f)
             inst = f'surface layer {kind}{" static" if static else " dynamic" if kind == "liquid" else ""}, ytype {ytype}'
             if 'args' not in captured:
-                chk.ob('R02.1', inst + ': the surface system is handed to zgesv', False, f'no zgesv call seen (other LAPACK routines called: {captured.get("other", [])}): the system that is solved cannot be read off', where,
+                chk.ob('R02.1', inst + ': the surface system is handed to zgesv', False, f'no zgesv call (nor a zgetrf / zgetrs pair on one matrix) seen (other LAPACK routines called: {captured.get("other", [])}): the system that is solved cannot be read off', where,
                        key=f'R02.1|{kind}|{static}|{ytype}'); continue
             a = captured['args']
             n_ref, nrhs_ref, A, lda, ipiv, b, ldb, inf = a
